@@ -1,7 +1,7 @@
 (* C02 property theorems. This file contains only statements closed by
    [exact lemma] and Print Assumptions. *)
 From V Require Import Common.Base C02.Graph C02.Order C02.SpecESM C02.Wrap C02.Resolve C02.ResolveSpec
-  C02.DataUrl C02.SpecDataUrl C02.OrderProofs C02.OrderEsmProofs C02.ResolveProofs C02.WrapProofs C02.DataUrlProofs C02.ClassifyProofs C02.Emit C02.EmitProofs C02.ResolveChainProofs.
+  C02.DataUrl C02.SpecDataUrl C02.OrderProofs C02.OrderEsmProofs C02.ResolveProofs C02.WrapProofs C02.DataUrlProofs C02.ClassifyProofs C02.Emit C02.EmitProofs C02.ResolveChainProofs C02.ScanEsmProofs.
 From Coq Require Import Permutation.
 
 (* every file of the chunk is emitted at most once ("every module body runs at most once") *)
@@ -169,17 +169,36 @@ Print Assumptions exports_three_formats_same_partial.
    boolean side condition [chain_scope g rk] - no export star, plain import records, every
    named import targets a file with an export statement (excludes refuted shape C), and the rank
    certificate [rk] decreases along every indirect export (excludes refuted shape B) - the
-   linker's verdict for an import (binding found / no matching export) is the one ECMA-262
-   ResolveExport gives.  [kinds] is the exports-kind assignment after classification; the
-   hypothesis says every file stayed an ES module.
+   linker's verdict for an import (classification steps 1-2, ResolvedExports, import matching:
+   binding found / no matching export) is the one ECMA-262 ResolveExport gives.  [esm_graph]:
+   every file is an ES module whose records are import statements resolved inside the graph.
    Full statement (resolve_is_spec_partial for graphs WITH export stars, side condition
    single_alias && ranked && named_targets_export): still only proved on the bounded domains above. *)
-Theorem resolve_is_spec_partial_starfree : forall g rk kinds s ref ni r ev R,
-  chain_scope g rk = true ->
-  (forall i, kinds i = EESM) ->
-  import_of g (s, ref) = Some ni ->
-  match_import g kinds (resolved_of g kinds) true (s, ref) = Some (r, ev) ->
-  spec_import g s ni = Some R ->
-  mres_verdict r ev = resolution_verdict g R.
-Proof. intros g rk kinds s ref ni r ev R Hs Hk. exact (starfree_agree g rk kinds Hs Hk s ref ni r ev R). Qed.
+Theorem resolve_is_spec_partial_starfree : forall g rk order s ni v1 v2,
+  esm_graph g = true -> chain_scope g rk = true ->
+  import_of g (s, ni_ref ni) = Some ni ->
+  link_verdict g order s ni = Some v1 -> spec_verdict g s ni = Some v2 -> v1 = v2.
+Proof. exact starfree_link_agree. Qed.
 Print Assumptions resolve_is_spec_partial_starfree.
+
+(* chunkOrderArray sort: with one entry point at distance 0 and every other file of the chunk
+   at a positive distance, the sorted list starts with the entry point *)
+Theorem entry_sorts_first : forall keys e t0,
+  In (0, t0, e) keys -> (forall k, In k keys -> k = (0, t0, e) \/ 0 < kdist k) ->
+  exists rest, chunk_sorted keys = e :: rest.
+Proof. exact entry_sorts_first_all. Qed.
+Print Assumptions entry_sorts_first.
+
+(* order_is_esm stated on the sort's input (distances) instead of its result *)
+Theorem order_is_esm_by_distance : forall g keys e t0 l,
+  (forall s t, In t (stmt_targets (getm g s)) -> t <> 0%nat /\ (t < length g)%nat) ->
+  stmt_targets (getm g 0) = [] ->
+  (forall s, followed g s = stmt_targets (getm g s)) ->
+  (forall s, s <> 0%nat -> (s < length g)%nat -> in_chunk g s = true) ->
+  e <> 0%nat -> (e < length g)%nat ->
+  In (0, t0, e) keys -> (forall k, In k keys -> k = (0, t0, e) \/ 0 < kdist k) ->
+  (forall k, In k keys -> reach (followed g) e (snd k)) ->
+  bundle_order g keys = Some l ->
+  spec_eval_order g e = Some (filter nz l).
+Proof. exact order_is_esm_keys. Qed.
+Print Assumptions order_is_esm_by_distance.
